@@ -111,6 +111,7 @@ Match ==
      ELSE /\ Line.effs = <<>> /\ Line.log = <<>>
           /\ UNCHANGED <<cvars, corevars>>
   /\ Line.xt = ExecTasks
+  /\ ("alive" \in DOMAIN Line) => Range(Line.alive) = ScriptTasksAlive
   /\ IsBridge => RegObs = RegOf(registry')
   /\ l' = l + 1 /\ ph' = "act" /\ UNCHANGED <<lk, host>>
 
